@@ -240,10 +240,25 @@ func c01Run(id, S, R string, enc, warm bool, msgs []c01Msg) *vlib.Result {
 
 // c01RunMode: keyedClear = both streams hold a session key but crypto mode is off (the
 // wire is plaintext; the third state a stream can be in besides "no key" and "encrypting").
-func c01RunMode(id, S, R string, enc, keyedClear, warm bool, msgs []c01Msg) *vlib.Result {
+func c01RunMode(id, S, R string, enc, keyedClear, warm bool, msgs []c01Msg, clearPrefix ...int) *vlib.Result {
 	res := &vlib.Result{Evals: 1}
 	sb := &netsim.Buf{}
 	snd := stream.NewStream(sb)
+	// clearPrefix[0] messages travel in the clear (one way: the receiver sends nothing) before the
+	// key is installed - the shape of a resumed session whose request is not answered in the clear
+	nPrefix := 0
+	if len(clearPrefix) > 0 {
+		nPrefix = clearPrefix[0]
+	}
+	var prefixSent [][]byte
+	for i := 0; i < nPrefix; i++ {
+		w := []byte(fmt.Sprintf("cleartext-before-the-key-%d", i))
+		if err := snd.SendMessage(context.Background(), w); err != nil {
+			res.Violate("C01/prefix-rejected", "%v", err)
+			return res
+		}
+		prefixSent = append(prefixSent, w)
+	}
 	if keyedClear {
 		_ = snd.SetSymmetricKey(testKey)
 		snd.SetCryptoMode(false)
@@ -273,6 +288,9 @@ func c01RunMode(id, S, R string, enc, keyedClear, warm bool, msgs []c01Msg) *vli
 	}
 	if keyedClear {
 		mode = "keyed-not-encrypting"
+	}
+	if nPrefix > 0 {
+		mode += fmt.Sprintf("-after-%d-clear", nPrefix)
 	}
 	typed := S == "typed" || S == "typedchar" || S == "putstring" || S == "putstringbytes"
 	rejected := false
@@ -325,6 +343,13 @@ func c01RunMode(id, S, R string, enc, keyedClear, warm bool, msgs []c01Msg) *vli
 	// receiver
 	rb := &netsim.Buf{R: append([]byte(nil), sb.W...)}
 	rcv := stream.NewStream(rb)
+	for i, w := range prefixSent {
+		got, err := rcv.ReceiveCompleteMessage(context.Background())
+		if err != nil || !bytes.Equal(got, w) {
+			res.Violate("C01/prefix-not-received", "cleartext message %d before the key: %v", i, err)
+			return res
+		}
+	}
 	if enc {
 		_ = rcv.SetSymmetricKey(testKey)
 	}
@@ -537,6 +562,27 @@ func C01Plan() *vlib.Plan {
 						id := fmt.Sprintf("k-size/S=%s/R=%s/keyed-not-encrypting/warm=%v/n=%d", S, R, warm, n)
 						yield(vlib.Case{ID: id, Run: func() *vlib.Result {
 							return c01RunMode(id, S, R, false, true, warm, []c01Msg{{data: payload(3, n)}})
+						}})
+					}
+				}
+			}
+		}
+		// (a') a one-way cleartext prefix (1 or 2 messages, nothing coming back) before the key is
+		// installed on both ends, then the short sequences on the encrypted stream
+		for _, np := range []int{1, 2} {
+			for _, R := range recvs {
+				for _, S := range []string{"send", "write", "typed"} {
+					for _, ls := range [][]int{{0}, {5}, {0, 3}, {4096, 1}, {16384, 0, 7}} {
+						np, R, S, ls := np, R, S, ls
+						id := fmt.Sprintf("prefix/clear=%d/S=%s/R=%s/l=%v", np, S, R, ls)
+						yield(vlib.Case{ID: id, Run: func() *vlib.Result {
+							var ms []c01Msg
+							for i, l := range ls {
+								ms = append(ms, c01Msg{data: payload(10+i, l)})
+							}
+							r := c01RunMode(id, S, R, true, false, false, ms, np)
+							r.Sample = id
+							return r
 						}})
 					}
 				}
